@@ -14,7 +14,7 @@ def swarm(rng):
     cfg = c02.swarm(rng)
     cfg.update({"p_sformula": rng.choice([0.6, 0.8, 1.0]), "p_item_eval": 0.8, "n_spaces": rng.choice([2, 3, 4, 6]), "max_depth": rng.choice([2, 3, 3]),
                 "n_steps": rng.choice([12, 20, 30]), "p_handle": rng.choice([0.15, 0.3]), "p_check": 0.2, "base_switch": rng.random() < 0.3,
-                "p_objref": rng.choice([0.0, 0.1]), "recalc": False, "p_identity": 0.3})
+                "p_objref": rng.choice([0.0, 0.1]), "recalc": False, "p_identity": 0.3, "nested_item_eval": rng.random() < 0.6})
     return cfg
 
 
